@@ -39,14 +39,33 @@ class FakeMessages:
         return self
 
     async def __anext__(self) -> FakeMessage:
+        if self._client.lost is not None:
+            # like the real client after its connection was lost: every further __anext__ raises again at once.  A receive
+            # loop that keeps iterating spins; the fake breaks such a loop after 2 000 rounds (SpinDetected is a
+            # BaseException so that no `except Exception` of the code under test swallows it)
+            self._client.raises_after_loss += 1
+            if self._client.raises_after_loss > 2000:
+                raise SpinDetected("the receive loop keeps iterating a connection that is lost")
+            await asyncio.sleep(0)
+            raise type(self._client.lost)(*self._client.lost.args)
         item = await self._client.queue.get()
         if isinstance(item, BaseException):
+            if FakeClient.sticky_errors:
+                self._client.lost = item
             raise item
         return item
 
 
+class SpinDetected(BaseException):
+    """The code under test iterates `client.messages` again and again after the connection was lost."""
+
+
 class FakeClient:
     """Stands in for aiomqtt.Client."""
+
+    sticky_errors = True   # a delivered MqttError means the connection is gone: iterating again raises again
+    exit_delay = 0.0       # __aexit__ takes this long (a broker that does not answer the DISCONNECT) ...
+    exit_timeout_error: BaseException | None = None  # ... and then raises this (aiomqtt's own time-out is an MqttError)
 
     instances: list["FakeClient"] = []
     connect_error: BaseException | None = None
@@ -62,6 +81,8 @@ class FakeClient:
         self.subscriptions: list[tuple[str, int]] = []
         self.entered = 0
         self.exited = 0
+        self.lost: BaseException | None = None
+        self.raises_after_loss = 0
         self.messages = FakeMessages(self)
         FakeClient.instances.append(self)
 
@@ -72,7 +93,11 @@ class FakeClient:
         return self
 
     async def __aexit__(self, *exc: Any) -> None:
+        if FakeClient.exit_delay:
+            await asyncio.sleep(FakeClient.exit_delay)
         self.exited += 1
+        if FakeClient.exit_timeout_error is not None:
+            raise FakeClient.exit_timeout_error
         if FakeClient.exit_error is not None:
             raise FakeClient.exit_error
 
@@ -111,6 +136,9 @@ class FakeClient:
         cls.connect_error = cls.publish_error = cls.subscribe_error = cls.exit_error = None
         cls.echo_prefixes = None
         cls.publish_gate = None
+        cls.exit_delay = 0.0
+        cls.exit_timeout_error = None
+        cls.sticky_errors = True
 
 
 @contextmanager
